@@ -936,6 +936,137 @@ func (g *gen) shapedSweep() {
 	g.shape = nil
 }
 
+// fileCases: the readers on a regular file opened through the interpreter's `open` reader stack, the
+// read placed so that it straddles the end of a read-ahead window (512 KiB after the first byte read)
+// and other round offsets, at every bit alignment
+func (g *gen) fileCases() {
+	type target struct {
+		at     int64 // byte offset the read straddles
+		primes []int
+	}
+	const w = 512 * 1024
+	targets := []target{
+		{w, []int{0}},            // sequential decode from the start: first window [0, 512Ki)
+		{2 * w, []int{0, w}},     // second window
+		{w + 100, []int{100}},    // a decode that starts at byte 100
+		{32768, []int{0}}, {65536, []int{0}}, {w - 32768, []int{0}}, {w + 32768, []int{0, w}},
+	}
+	if g.thorough {
+		targets = append(targets, target{3 * w, []int{0, w, 2 * w}}, target{w + 1, []int{1}}, target{w + 4096, []int{4096}},
+			target{1024, []int{0}}, target{4096, []int{0}})
+	}
+	type rd struct {
+		method string
+		args   []string
+		bits   int // bits consumed (0: data dependent, window only)
+		endian string
+	}
+	rds := []rd{
+		{"TryU", []string{"64"}, 64, "be"}, {"TryU", []string{"13"}, 13, "be"}, {"U64LE", nil, 64, "be"}, {"TryS", []string{"37"}, 37, "le"},
+		{"FieldU32", nil, 32, "be"}, {"TryF64", nil, 64, "be"}, {"F80LE", nil, 80, "be"}, {"TryFP32", nil, 32, "le"},
+		{"TryUBigInt", []string{"129"}, 129, "be"}, {"TrySBigIntLE", []string{"128"}, 128, "be"},
+		{"TryUTF8", []string{"12"}, 96, "be"}, {"FieldUTF16LE", []string{"10"}, 80, "be"}, {"TryUTF8NullFixedLen", []string{"9"}, 72, "be"},
+		{"TryULEB128", nil, 0, "be"}, {"TrySLEB128", nil, 0, "be"}, {"TryUnary", []string{"0"}, 0, "be"}, {"TryBits", []string{"100"}, 100, "be"},
+		{"TryUTF8Null", nil, 0, "be"}, {"TryUTF8ShortString", nil, 0, "be"},
+	}
+	fileBytes := int64(2*w + 70000)
+	if g.thorough {
+		fileBytes = 3*w + 70000
+	}
+	n := 0
+	for ti, t := range targets {
+		for ri, r := range rds {
+			aligns := []int{0, 1, 2, 3, 4, 5, 6, 7}
+			if ti > 0 && !g.thorough {
+				if (ti+ri)%2 == 1 {
+					continue
+				}
+				aligns = []int{(ti*3 + ri + 4) % 8}
+			}
+			for _, a := range aligns {
+				// the read starts 1..k bytes before the target offset so that it crosses it
+				span := r.bits
+				if span == 0 {
+					span = 16
+				}
+				back := int64(1 + g.r.Intn((span+7)/8))
+				if span <= 8 {
+					back = 1
+				}
+				startBit := (t.at-back)*8 + int64(a)
+				if a > 0 && span <= 8 {
+					startBit = t.at*8 - int64(a) // a short read that still crosses the byte offset
+				}
+				winOff := startBit/8 - 2
+				if winOff < 0 {
+					winOff = 0
+				}
+				winLen := int64(600) // long enough for the data dependent readers and the following read
+				buf := make([]byte, winLen)
+				for i := range buf {
+					buf[i] = fillerByte(winOff + int64(i))
+				}
+				shape := fmt.Sprintf("f:%d:%d:%s", winOff, fileBytes, joinInts(t.primes))
+				runCase(g.o, shape, winLen*8, buf, startBit-winOff*8, r.endian, r.method, r.args)
+				g.used[r.method] = true
+				g.o.Class(fmt.Sprintf("file|%s|%d|%d", r.method, t.at, a))
+				n++
+			}
+		}
+	}
+	g.o.Stat("file_stack_cases", n)
+}
+
+// longText: text readers at and beyond internal sizes (65535 / 65536 / 65537 bytes, 32768 UTF-16 units,
+// 200000 bytes): value AND position after AND the following read.  The input is run-length coded on
+// the case line: one prefix byte, n repetitions of a unit, a zero terminator, tail bytes; read from
+// bit offset a of the prefix byte, so the text is the bit-shifted stream.
+func (g *gen) longText() {
+	run := func(unitHex string, unit []byte, n int, a int, method string, args ...string) {
+		var buf []byte
+		buf = append(buf, 0xa5)
+		for i := 0; i < n; i++ {
+			buf = append(buf, unit...)
+		}
+		buf = append(buf, 0, 0, 0, 0, 0x77, 0x88, 0x99)
+		hexText := fmt.Sprintf("a5.%dx%s.00000000778899", n, unitHex)
+		runCaseHex(g.o, "", int64(len(buf))*8, buf, hexText, int64(a), "be", method, args)
+		g.used[method] = true
+		g.o.Class(fmt.Sprintf("long|%s|%d|%d", method, n, a))
+	}
+	ci := 0
+	lay := func() string { ci++; return layers[ci%len(layers)] }
+	lens8 := []int{65534, 65535, 65536, 65537}
+	if g.thorough {
+		lens8 = append(lens8, 65533, 65538, 131072, 200000)
+	} else {
+		lens8 = append(lens8, 200000)
+	}
+	for _, n := range lens8 {
+		for _, a := range []int{0, 5} {
+			run("61", []byte{0x61}, n, a, lay()+"UTF8Null")
+		}
+	}
+	for _, n := range []int{32767, 32768, 32769} {
+		for _, a := range []int{0, 3} {
+			if a != 0 && n != 32768 && !g.thorough {
+				continue
+			}
+			run("6100", []byte{0x61, 0x00}, n, a, lay()+"UTF16LENull")
+			run("0061", []byte{0x00, 0x61}, n, a, lay()+"UTF16BENull")
+			run("6100", []byte{0x61, 0x00}, n, a, lay()+"UTF16Null")
+		}
+	}
+	// fixed length / fixed with null / length given beyond 64Ki
+	run("c3a9", []byte{0xc3, 0xa9}, 33000, 0, lay()+"UTF8", "65536")
+	run("c3a9", []byte{0xc3, 0xa9}, 33000, 4, lay()+"UTF8", "66001")
+	run("61", []byte{0x61}, 65600, 2, lay()+"UTF8NullFixedLen", "65604")
+	run("4100", []byte{0x41, 0x00}, 32800, 0, lay()+"UTF16LE", "65600")
+	run("61", []byte{0x61}, 70000, 1, "TryBits", "524289")
+	run("61", []byte{0x61}, 70000, 7, lay()+"UBigInt", "524291")
+	g.o.Stat("long_text_cases", ci)
+}
+
 func generate(o *hlib.Out, cfg hlib.Config) {
 	g := &gen{o: o, r: hlib.NewRand(cfg.Seed), thorough: cfg.Thorough(), used: map[string]bool{}}
 	methods := readerMethods()
@@ -962,6 +1093,9 @@ func generate(o *hlib.Out, cfg hlib.Config) {
 	g.text()
 	g.shape = nil
 	g.lite = false
+
+	g.longText()
+	g.fileCases()
 
 	// every scalar reader method of *decode.D (by name) must have been exercised
 	missing := 0
